@@ -50,12 +50,14 @@ RANGES = [[10.0, 1e3], [1e2, 1e4], [1e3, 1e5]]
 LAMBDAS = [2.0, 5.0, 12.0]
 ACCEPT = [math.pi / 2, 0.1, 0.01]
 BOUNDS = {
-    "quick": {"n": [1, 2, 5, 50], "kinds": ["linear", "log"], "ranges_A": RANGES, "wavelength_A": LAMBDAS,
-              "acceptance_rad": ACCEPT, "gaussian_s_A": "30, 300, 3000 (x seed factor) and sums of two",
+    "quick": {"n": [1, 2, 5, 20, 50], "kinds": ["linear", "log"], "ranges_A": RANGES, "wavelength_A": LAMBDAS,
+              "acceptance_rad": ACCEPT,
+              "gaussian_s_A": "10, 30, 100, 300, 1000, 3000, 10000, 30000 (x seed factor) and sums of two neighbours",
               "impulse_ladder": "q_acc x (0.3 0.6 0.9 0.99 1.01 1.1 1.5 3), 2pi/lambda x (0.9 0.99 1.01 1.5)",
               "masked_quadrature_xi": "first, middle, last"},
-    "thorough": {"n": [1, 2, 5, 50, 200], "kinds": ["linear", "log"], "ranges_A": RANGES, "wavelength_A": LAMBDAS,
-                 "acceptance_rad": ACCEPT, "gaussian_s_A": "30, 100, 300, 1000, 3000 (x seed factor) and sums of two",
+    "thorough": {"n": [1, 2, 3, 5, 10, 20, 50, 100, 200], "kinds": ["linear", "log"], "ranges_A": RANGES,
+                 "wavelength_A": LAMBDAS, "acceptance_rad": ACCEPT,
+                 "gaussian_s_A": "10, 30, 100, 300, 1000, 3000, 10000, 30000 (x seed factor) and sums of two neighbours",
                  "impulse_ladder": "q_acc x (0.3 0.6 0.9 0.99 1.01 1.1 1.5 3), 2pi/lambda x (0.9 0.99 1.01 1.5)",
                  "masked_quadrature_xi": "first, quartiles, last"},
 }
@@ -73,7 +75,7 @@ def setup(ctx):
 
 
 def _svals(ctx):
-    base = [30.0, 300.0, 3000.0] if ctx.quick else [30.0, 100.0, 300.0, 1000.0, 3000.0]
+    base = [10.0, 30.0, 100.0, 300.0, 1000.0, 3000.0, 10000.0, 30000.0]
     if ctx.seed == 0:
         return base
     return [b * ctx.factor(k) for k, b in enumerate(base)]
@@ -147,6 +149,10 @@ def masked_reference(xi, s, q_lo, q_hi):
     return val, mag
 
 
+def _bucket(x):
+    return "<=0.1" if x <= 0.1 else "<=0.5" if x <= 0.5 else "<=1" if x <= 1 else ">1"
+
+
 class Judge(object):
     def __init__(self, r, fk, desc):
         self.r, self.fk, self.desc = r, fk, desc
@@ -182,7 +188,7 @@ def judge_transform(r, J, T, xi, lam, acc, svals, nxi_quad, tag=""):
     g0 = lambda I: float(np.sum(dq * q * np.abs(I))) / (2 * math.pi)
 
     # ---- linearity
-    s1, s2 = svals[0], svals[-1]
+    s1, s2 = svals[1], svals[-3]
     f, g = gauss(q, s1), gauss(q, s2) + 0.25 * gauss(q, s1 * 3.3)
     a, b = 1.7, -0.6
     lhs = _apply(T, a * f + b * g)
@@ -223,6 +229,7 @@ def judge_transform(r, J, T, xi, lam, acc, svals, nxi_quad, tag=""):
                 J.bad("gaussian", "%sI(q) = %s: apply(I)[xi=%r] = %.12g, exact (exp(-xi^2/2s^2)-1)/(2 pi s^2) = %.12g; "
                       "|error| %.3g exceeds %.3g (= %g of the maximum)" % (tag, name, xi[k], got[k], ex[k], err[k], tolv, REL_TOL))
             r.ok(nt=nt, outcome="gauss-analytic", branches=["gauss:analytic"])
+            r.extra["analytic_err_over_tol_%s" % _bucket(float(np.max(err) / tolv))] += 1
             if len(parts) == 1:
                 results[parts[0][1]] = float(np.max(err) / tolv)
         else:
@@ -242,6 +249,7 @@ def judge_transform(r, J, T, xi, lam, acc, svals, nxi_quad, tag=""):
                     J.bad("masked-integral", "%sI(q) = %s, xi = %r: apply(I) = %.12g but (1/2pi) int_[q<=q_acc=%.6g] [J0(q xi)-1] I q dq "
                           "= %.12g; |error| %.3g exceeds %.3g" % (tag, name, xi[k], got[k], q_acc, ref, abs(got[k] - ref), tolv))
                 nt = nt or abs(ref) > 0.01 * mag
+                r.extra["masked_err_over_tol_%s" % _bucket(abs(got[k] - ref) / tolv)] += 1
             r.ok(nt=nt, outcome="gauss-masked", trans=len(pick), branches=["gauss:masked"])
 
     # ---- unit impulses around the acceptance and the kinematic limit
@@ -278,7 +286,7 @@ def judge_transform(r, J, T, xi, lam, acc, svals, nxi_quad, tag=""):
         distinct = bool(np.any(np.abs(jz) > 0.05))        # J0 term distinguishable from the -1 term
         if accepted:
             if not is_full:
-                if is_g0_only and distinct:
+                if (is_g0_only or is_zero) and distinct:
                     J.bad("mask-cutoff", "%simpulse at %s lies inside the acceptance, but its J0 term is masked: apply(e_j) = %s, "
                           "expected w (J0(q xi) - 1) = %s" % (tag, where, col[:3], full_lo[:3]), side="inside-masked")
                 else:
@@ -393,6 +401,7 @@ def run_gxi(case, ctx, r):
 
 
 def run_case(case, ctx):
+    np.set_printoptions(legacy="1.25")     # plain floats in failure details
     r = R()
     kind = case["kind"]
     if kind == "transform":
@@ -409,11 +418,11 @@ def run_case(case, ctx):
 def finish(ctx, report):
     report.require("q_calc", 50, "q_calc judged")
     report.require("linearity", 50, "linearity judged")
-    report.require("gauss:analytic", 100, "Gaussians inside the calculated range and the acceptance")
-    report.require("gauss:masked", 50, "Gaussians cut by the acceptance")
+    report.require("gauss:analytic", 150, "Gaussians inside the calculated range and the acceptance")
+    report.require("gauss:masked", 100, "Gaussians cut by the acceptance")
     report.require("impulse:inside", 100, "impulses inside the acceptance")
     report.require("impulse:outside", 100, "impulses outside the acceptance")
-    report.require("single-point", 5, "single spin-echo length versus the same point in a larger set")
+    report.require("single-point", 20, "single spin-echo length versus the same point in a larger set")
     report.require("direct", 3, "DirectModel path")
     report.require("gxi", 1, "Gxi path")
     for n in BOUNDS[ctx.tier]["n"]:
